@@ -9,6 +9,7 @@ import (
 
 	"verif/harness/busdrv"
 	"verif/harness/core"
+	"verif/harness/gen"
 )
 
 func init() { registry["C02"] = c02 }
@@ -56,4 +57,41 @@ func c02(r *core.Run) {
 		Kinds: []string{"sub", "sub", "sub", "unsub", "unsub", "clear", "clearall", "count", "pub", "pub", "pub", "pub"},
 		Cfgs:  []busdrv.Cfg{plainCfg}}
 	stress(r, "c02-stress", g, r.Pick(150, 3000), []int{1, 2, 4, 16}, 202, classifyBus, "no-deadlock")
+	churn(r, r.Pick(1500, 40000))
+}
+
+// churn: many tiny scripts that hit one type's handler list with simultaneous Unsubscribe / Subscribe calls (the
+// narrow windows inside the registry's critical sections), then publish once to observe who is registered.
+func churn(r *core.Run, n int) {
+	rnd := rand.New(rand.NewPCG(uint64(r.Seed), 203))
+	fns := []string{"f0", "f1", "f2", "c0", "c1"}
+	for _, mp := range []int{4, 16} {
+		var scripts []busdrv.Script
+		for i := 0; i < n/2; i++ {
+			t := gen.All[rnd.IntN(len(gen.All))].Name
+			s := busdrv.Script{Cfg: plainCfg}
+			k := 3 + rnd.IntN(3)
+			perm := rnd.Perm(len(fns))
+			for j := 0; j < k; j++ {
+				s.Setup = append(s.Setup, busdrv.Op{Op: "sub", T: t, Fn: fns[perm[j%len(fns)]]})
+			}
+			procs := 2 + rnd.IntN(3)
+			for p := 0; p < procs; p++ {
+				var ops []busdrv.Op
+				for q := 0; q < 1+rnd.IntN(2); q++ {
+					if rnd.IntN(3) == 0 {
+						ops = append(ops, busdrv.Op{Op: "sub", T: t, Fn: fns[rnd.IntN(len(fns))]})
+					} else {
+						ops = append(ops, busdrv.Op{Op: "unsub", T: t, Fn: fns[perm[rnd.IntN(k)%len(fns)]]})
+					}
+				}
+				s.Procs = append(s.Procs, ops)
+			}
+			s.Final = []busdrv.Op{{Op: "pub", T: t, Val: "a", Ctx: "bg"}, {Op: "count", T: t}}
+			scripts = append(scripts, s)
+			r.Case(scriptKey(s))
+		}
+		busdrv.ExecAndValidate(r, scripts, busdrv.ExecOpts{Name: fmt.Sprintf("c02-churn-mp%d", mp), Self: Self(), Seed: uint64(r.Seed)*7 + uint64(mp),
+			Env: []string{fmt.Sprintf("GOMAXPROCS=%d", mp)}, HangIsViolation: true, HangClause: "no-deadlock", CrashClause: "data-race-or-crash", Classify: classifyBus})
+	}
 }
